@@ -65,12 +65,13 @@ func TestVerifC12MultiHTTP(t *testing.T) {
 	// instances that are down: addresses nobody listens on
 	var down [2]string
 	for k := range down {
-		l, err := net.Listen("tcp", "127.0.0.1:0")
+		// bound for the length of the test, never listening: refused, and no other process can be given the port
+		a, release, err := verifx.C12DownAddr()
 		if err != nil {
 			t.Fatal(err)
 		}
-		down[k] = "http://" + l.Addr().String()
-		l.Close()
+		defer release()
+		down[k] = "http://" + a
 	}
 	routes := map[string]int{}
 	var text bytes.Buffer
